@@ -231,7 +231,7 @@ def make_fake_transport_class():
 
         # -- bookkeeping -------------------------------------------------
         def _foreign(self) -> bool:
-            return threading.get_ident() != self._sess.owner_thread
+            return self._sess.owner_thread is not None and threading.get_ident() != self._sess.owner_thread
 
         def _call(self, op: str, reads: bool = False):
             """Count the call, apply budget and the fault plan. Returns 'junk' if a malformed reply is due."""
